@@ -1,6 +1,6 @@
 (* Proofs/BitsOps.v — the translated bits_ops.py equals Spec/Pseudocode for every width. *)
 From Coq Require Import ZArith Znumtheory Bool Lia ZifyBool List.
-From ArmV Require Import Lib.PyZ Spec.Pseudocode Proofs.BitLemmas.
+From ArmV Require Import Lib.PyZ Spec.Pseudocode Proofs.BitLemmas Proofs.SpecFacts.
 From Gen Require Import bits_ops.
 Open Scope Z_scope.
 Ltac Zify.zify_post_hook ::= Z.to_euclidean_division_equations.
@@ -26,11 +26,6 @@ Qed.
 Theorem bit_at_bit x i : 0 <= i -> bit_at x i = bit x i.
 Proof. intros. unfold bit_at. rewrite substring_bits by lia. unfold bits, bit.
   replace (i - i + 1) with 1 by lia. reflexivity. Qed.
-Lemma bits_range x hi lo : 0 <= lo <= hi -> 0 <= bits x hi lo < 2 ^ (hi - lo + 1).
-Proof. intros. unfold bits. apply Z.mod_pos_bound. apply pow_pos; lia. Qed.
-Lemma bit_range x i : 0 <= bit x i <= 1.
-Proof. unfold bit. pose proof (Z.mod_pos_bound (x / 2 ^ i) 2 ltac:(lia)). lia. Qed.
-
 Theorem to_signed_SInt x N : 0 < N -> 0 <= x < 2 ^ N -> to_signed x N = SInt x N.
 Proof.
   intros HN Hx. unfold to_signed, SInt. cbv zeta.
@@ -112,17 +107,6 @@ Proof.
       destruct (i <? 256) eqn:E3; [apply andb_true_r|]. rewrite andb_false_r. symmetry. apply (tb_small b 256); lia.
   - rewrite (Z.testbit_neg_r v) by lia. rewrite (Z.testbit_neg_r (2 ^ (hi + 1 - lo) - 1)) by lia. cbn [xorb].
     replace (i <? 256) with true by lia. rewrite orb_false_r. apply andb_true_r.
-Qed.
-
-Lemma testbit_bits x hi lo j : 0 <= lo <= hi -> 0 <= j ->
-  Z.testbit (bits x hi lo) j = if j <=? hi - lo then Z.testbit x (j + lo) else false.
-Proof.
-  intros. unfold bits. rewrite <- Z.shiftr_div_pow2 by lia. rewrite <- Z.land_ones by lia.
-  rewrite Z.land_spec, Z.shiftr_spec by lia. rewrite Z.testbit_ones by lia.
-  replace (0 <=? j) with true by lia. cbn [andb].
-  destruct (j <=? hi - lo) eqn:E.
-  - replace (j <? hi - lo + 1) with true by lia. apply andb_true_r.
-  - replace (j <? hi - lo + 1) with false by lia. apply andb_false_r.
 Qed.
 
 (* reading back a field that was just written, and reading any disjoint field *)
